@@ -77,18 +77,62 @@ fuzz_target!(|data: &[u8]| {
         vh::inst::install_panic_hook();
         vh::inst::thread_init();
     });
-    let prop = std::env::var("VERIF_PROP").ok().and_then(|p| vh::registry::prop_of(&p)).unwrap_or(vh::interp::Prop::C01);
+    let pname = std::env::var("VERIF_PROP").unwrap_or_else(|_| "C01".into());
     let mut u = Unstructured::new(data);
-    if let Ok(case) = decode(&mut u) {
-        if !prop.kind_ok(case.kind) {
-            return;
+    let case = match decode(&mut u) {
+        Ok(c) => c,
+        Err(_) => return,
+    };
+    // the multi-instance and fault-injection properties reuse the decoded history
+    let (violation, payload): (Option<vh::interp::Violation>, String) = match pname.as_str() {
+        "C13" => {
+            let n = case.ops.len();
+            let (hist, ins): (Vec<Op>, Vec<Op>) = case.ops.iter().cloned().partition(|o| !o.is_read_only());
+            let ins: Vec<(usize, Op)> = ins.into_iter().enumerate().map(|(j, o)| ((j * 7) % (n + 1), o)).take(6).collect();
+            let mut ins = ins;
+            ins.sort_by_key(|x| x.0);
+            let t = vh::multi::C13Case { case: Case { ops: hist, ..case.clone() }, ins };
+            (vh::checks::exec_c13(&t).violation, serde_json::to_string(&t).unwrap_or_default())
         }
-        let rep = exec_case(&case, prop);
-        if let Some(v) = rep.violation {
-            eprintln!("VIOLATION-IN-FUZZ property={} {}", v.prop, v.msg);
-            eprintln!("CASE {}", serde_json_case(&case));
-            std::process::abort();
+        "C16" => {
+            if !case.kind.cloneable() {
+                return;
+            }
+            let n = case.ops.len();
+            let t = vh::multi::C16Case {
+                case: Case { ops: case.ops[..n / 2].to_vec(), ..case.clone() },
+                lock: case.ops[n / 2..n - n / 4].to_vec(),
+                diverge: case.ops[n - n / 4..].to_vec(),
+                mutate_original: n % 2 == 0,
+            };
+            (vh::checks::exec_c16(&t).violation, serde_json::to_string(&t).unwrap_or_default())
         }
+        "C17" => {
+            if case.kind == Kind::LruCbD {
+                return;
+            }
+            (vh::checks::exec_c17(&case).violation, serde_json_case(&case))
+        }
+        "C18" => {
+            let mut c = case.clone();
+            c.ops.truncate(40);
+            if c.kind == Kind::LruCbD {
+                return;
+            }
+            (vh::checks::exec_e4(&c).violation, serde_json_case(&c))
+        }
+        other => {
+            let prop = vh::registry::prop_of(other).unwrap_or(vh::interp::Prop::C01);
+            if !prop.kind_ok(case.kind) {
+                return;
+            }
+            (exec_case(&case, prop).violation, serde_json_case(&case))
+        }
+    };
+    if let Some(v) = violation {
+        eprintln!("VIOLATION-IN-FUZZ property={} {}", v.prop, v.msg);
+        eprintln!("CASE {}", payload);
+        std::process::abort();
     }
 });
 
